@@ -543,6 +543,18 @@ impl InterfaceInner {
         let src_addr = ipv6_repr.dst_addr;
         let dst_addr = ipv6_repr.src_addr;
 
+        // Per RFC 4443 § 2.4 (e.3), do not send an ICMPv6 error in answer to a packet
+        // addressed to a multicast group (mirrors the IPv4 rule in `icmpv4_reply`).
+        // Echo replies are not errors; Parameter Problem messages are kept.
+        if src_addr.is_multicast()
+            && !matches!(
+                icmp_repr,
+                Icmpv6Repr::EchoReply { .. } | Icmpv6Repr::ParamProblem { .. }
+            )
+        {
+            return None;
+        }
+
         let src_addr = if src_addr.x_is_unicast() {
             src_addr
         } else {
